@@ -170,12 +170,10 @@ def check(run, views, tier):
         for path, body in F.hir.items():
             if "::tests::" in path or body["kind"] not in ("Fn", "AssocFn"):
                 continue
-            hits = [c for c in calls(body["body"], lambda c: c == "ipp::attribute::IppAttribute::new")]
-            relevant = False
-            for h in hits:
-                a0 = unwrap(h["args"][0]) if h.get("args") else {}
-                if (a0.get("k") == "path" and a0["res"].get("path") == PRINTER_URI) or (a0.get("k") == "lit" and a0.get("v") == "printer-uri"):
-                    relevant = True
+            # every function that names the printer-uri attribute (directly in IppAttribute::new or handed to a helper that is judged inlined)
+            from ..facts import walk as _walk
+            relevant = any((n_.get("k") == "path" and n_.get("res", {}).get("path") == PRINTER_URI) or (n_.get("k") == "lit" and n_.get("v") == "printer-uri")
+                           for n_ in _walk(body["body"]))
             if not relevant:
                 continue
             try:
